@@ -715,3 +715,71 @@ func TestKnownFindings(t *testing.T) {
 		"an intermediate control frame cut mid-payload is handed to the control handler as a short clean payload: "+detail,
 		present, map[string]interface{}{"frames": ref.Describe(frames), "cut": "6 bytes before the end of the ping payload"})
 }
+
+// TestReadFrameHugeCuts: frames larger than 1 MiB are read by ws.ReadFrame in growing
+// chunks and by ReadMessage through a growing buffer; a stream that ends inside such a
+// payload — in particular exactly at 1, 2, 4 MiB of payload — must end in a non-EOF error.
+func TestReadFrameHugeCuts(t *testing.T) {
+	const MiB = 1 << 20
+	size := 4*MiB + MiB/2
+	if !hx.Thorough() {
+		size = 2*MiB + MiB/2
+	}
+	payload := gen.Filled(size, 3)
+	n := 0
+	for _, masked := range []bool{false, true} {
+		f := ref.Frame{H: ref.Header{Fin: true, Op: ref.OpBinary, Masked: masked, Mask: [4]byte{1, 2, 3, 4}}, Payload: payload}
+		data := f.Encode()
+		hdr := len(data) - size
+		state := ws.StateClientSide
+		if masked {
+			state = ws.StateServerSide
+		}
+		var cuts []int
+		for _, base := range []int{0, MiB, 2 * MiB, 3 * MiB, 4 * MiB} {
+			for _, d := range []int{-1, 0, 1} {
+				if c := base + d; c >= 0 && c < size {
+					cuts = append(cuts, c)
+				}
+			}
+		}
+		cuts = append(cuts, size-1)
+		for _, cut := range cuts {
+			for _, fault := range []error{io.EOF, tx.ErrInjected} {
+				for _, entry := range []string{"ReadFrame", "ReadMessage"} {
+					src := tx.NewSrc(nil, nil)
+					src.Data = data[:hdr+cut] // no private copy of multi-megabyte streams
+					src.End = fault
+					var err error
+					var got int
+					if entry == "ReadFrame" {
+						var fr ws.Frame
+						fr, err = ws.ReadFrame(src)
+						got = len(fr.Payload)
+					} else {
+						var ms []wsutil.Message
+						ms, err = wsutil.ReadMessage(src, state, nil)
+						got = len(ms)
+					}
+					n++
+					desc := map[string]interface{}{"entry": entry, "frame_payload": size, "payload_bytes_before_cut": cut, "fault": fault.Error(), "masked": masked}
+					hx.NonTrivial(hx.Hash("hugecut", entry, cut, fault == io.EOF, masked), func() interface{} { return desc })
+					if err == nil {
+						hx.Failf(t, desc, "%s reported success for a %d-byte frame cut after %d payload bytes (returned %d)", entry, size, cut, got)
+						return
+					}
+					if err == io.EOF && cut > 0 {
+						hx.Failf(t, desc, "%s reported a clean io.EOF for a %d-byte frame cut after %d payload bytes", entry, size, cut)
+						return
+					}
+					if entry == "ReadMessage" && got != 0 {
+						hx.Failf(t, desc, "ReadMessage returned %d messages together with the error for a cut frame", got)
+						return
+					}
+				}
+			}
+		}
+	}
+	hx.EvalN(n)
+	hx.Part("reader: one frame > 1 MiB cut at 0, 1, 2, 3, 4 MiB of payload (+-1) and one byte before its end x {EOF, error} x {ReadFrame, ReadMessage} x masked", int64(n), true)
+}
